@@ -175,9 +175,16 @@ func (g *vdb) checkC22(tr *lib.Trace, q *vnode, seed uint64) {
 		return
 	}
 	tr.Count(fmt.Sprintf("rows=%s", vbucket(len(exp.rows))))
-	g.setopOracle(tr, q, seed)
-	first := true
-	reported := false
+	setopOK := g.setopOracle(tr, q, seed)
+	// run every strategy first: the model replay (Q line) is emitted only when the direct oracle
+	// found nothing for this case — a reported failing input is not reported a second time as a
+	// disagreement with the model
+	type run struct {
+		s    vstrategy
+		res  *vresult
+		plan string
+	}
+	var runs []run
 	for _, s := range vstrategies {
 		res, plan := g.execute(src, s, seed)
 		if res.err == "skip" {
@@ -185,32 +192,41 @@ func (g *vdb) checkC22(tr *lib.Trace, q *vnode, seed uint64) {
 			continue
 		}
 		tr.Count("strategy=" + s.name)
-		if first {
-			first = false
-			tr.Q("eval "+q.toks(&g.ids), res.show(&g.ids))
-			tr.Sample(src + "  =>  " + vtrunc(plan, 200))
+		runs = append(runs, run{s, res, plan})
+	}
+	for _, rn := range runs {
+		kind := vdiffers(exp, rn.res)
+		if kind == "" {
+			continue
 		}
-		if kind := vdiffers(exp, res); kind != "" && !reported {
-			reported = true
-			m := g.vlocalise(q, seed)
-			kind2, s2, plan2, exp2, got2 := g.vmismatch(m.src(), seed)
-			if kind2 == "" { // not reproducible on the sub-query alone: report the whole
-				m, kind2, s2, plan2, exp2, got2 = q, kind, s, plan, exp, res
-			}
-			gotS := ""
-			if got2 != nil {
-				gotS = got2.show(&g.ids)
-			}
-			sig := "aswritten-" + kind2 + ":" + vshape(m)
-			if kind2 == "error" && got2 != nil {
-				// one signature per kind of failure, whatever operator it shows under
-				sig = "aswritten-error:" + verrSig(got2.err)
-			}
-			tr.Fail(sig,
-				"db: "+g.describe()+" query: "+m.src()+" | strategy "+s2.name+" executes: "+vtrunc(plan2, 300)+
-					" | as written (Simple of the untransformed query): "+vtrunc(exp2.show(&g.ids), 300)+
-					" | executed: "+vtrunc(gotS, 300)+" | columns "+strings.Join(g.ids.names, ","))
+		m := g.vlocalise(q, seed)
+		kind2, s2, plan2, exp2, got2 := g.vmismatch(m.src(), seed)
+		if kind2 == "" { // not reproducible on the sub-query alone: report the whole
+			m, kind2, s2, plan2, exp2, got2 = q, kind, rn.s, rn.plan, exp, rn.res
 		}
+		gotS := ""
+		if got2 != nil {
+			gotS = got2.show(&g.ids)
+		}
+		sig := "aswritten-" + kind2 + ":" + vshape(m)
+		if kind2 == "error" && got2 != nil {
+			// one signature per kind of failure, whatever operator it shows under
+			sig = "aswritten-error:" + verrSig(got2.err)
+		}
+		tr.Fail(sig,
+			"db: "+g.describe()+" query: "+m.src()+" | strategy "+s2.name+" executes: "+vtrunc(plan2, 300)+
+				" | as written (Simple of the untransformed query): "+vtrunc(exp2.show(&g.ids), 300)+
+				" | executed: "+vtrunc(gotS, 300)+" | columns "+strings.Join(g.ids.names, ","))
+		tr.Count("model-replay-skipped-after-F")
+		return
+	}
+	if !setopOK {
+		tr.Count("model-replay-skipped-after-F")
+		return
+	}
+	if len(runs) > 0 {
+		tr.Q("eval "+q.toks(&g.ids), runs[0].res.show(&g.ids))
+		tr.Sample(src + "  =>  " + vtrunc(runs[0].plan, 200))
 	}
 }
 
@@ -272,15 +288,15 @@ func verrSig(err string) string {
 // here on the separately executed sources (rows compared over the union of the column sets, a
 // missing column reading as ""). Independent of Simple(), which shares Compatible with the
 // executed operators.
-func (g *vdb) setopOracle(tr *lib.Trace, n *vnode, seed uint64) {
+func (g *vdb) setopOracle(tr *lib.Trace, n *vnode, seed uint64) (ok bool) {
 	if n.op != "union" && n.op != "intersect" && n.op != "minus" {
-		return
+		return true
 	}
 	whole, plan := g.execute(n.src(), vstrategies[0], seed)
 	ra, _ := g.execute(n.kids[0].src(), vstrategies[0], seed)
 	rb, _ := g.execute(n.kids[1].src(), vstrategies[0], seed)
 	if whole.err != "" || ra.err != "" || rb.err != "" {
-		return
+		return true
 	}
 	all := append([]string{}, ra.cols...)
 	for _, c := range rb.cols {
@@ -365,7 +381,9 @@ func (g *vdb) setopOracle(tr *lib.Trace, n *vnode, seed uint64) {
 		}
 		tr.Fail(sig, "db: "+g.describe()+" query: "+n.src()+" | executes: "+vtrunc(plan, 300)+
 			" | the operation on the separately executed sources: "+vtrunc(exp, 300)+" | executed: "+vtrunc(got, 300))
+		return false
 	}
+	return true
 }
 
 func vbucket(n int) string {
